@@ -21,59 +21,133 @@ LIB = str(C.REPO / 'dataclass_wizard') + os.sep
 INF = 10 ** 12
 
 
-def run_schedule(bodies, plan, opcode=False, record=False, timeout=20.0):
-    """-> dict(results=[('ok', v)|('err', exc)], counts=[events per thread], log=[[ (file, line) ]], stuck=bool)"""
+def run_schedule(bodies, plan, opcode=False, record=False, timeout=20.0, trace_extra=(), touch=None, block_after=0.12):
+    """-> dict(results=[('ok', v)|('err', exc)], counts=[events per thread], log=[[ (file, line) ]], stuck=bool)
+
+    `opcode`: False = line events of library files and generated code; True = opcode events of the same frames; a tuple of
+    file-name prefixes = opcode events of the frames of those files only (nothing else is a pre-emption point).
+    `trace_extra`: further file-name prefixes whose frames give line events (a lazily imported third-party module).
+    `touch`: {(relative file, line): {table names}} (see `table_touch_lines`); a plan segment may then be
+    `(thread, ('tbl', X, n))`: run `thread` until it is about to execute a line touching table X for (at least) the n-th time.
+    A thread holding the baton that produces no event for `block_after` seconds (it waits for a lock that a pre-empted
+    thread holds, e.g. the import lock of a module) is set aside: the baton goes to the next runnable thread and the blocked
+    one queues up again at its first event after it wakes.
+    """
     n = len(bodies)
     sems = [threading.Semaphore(0) for _ in range(n)]
-    main_sem = threading.Semaphore(0)
-    st = {'seg': 0, 'left': 0, 'switches': 0}
+    done = threading.Event()
+    mu = threading.RLock()
+    st = {'seg': 0, 'left': 0, 'switches': 0, 'target': None, 'cur': None, 'blocked_seen': 0}
     counts = [0] * n
+    progress = [0] * n
     finished = [False] * n
+    blocked = set()
     results = [None] * n
     logs = [[] for _ in range(n)]
+    tcount = [dict() for _ in range(n)]
     plan = list(plan)
+    only_files = tuple(opcode) if isinstance(opcode, (tuple, list)) else None
+    opcode = bool(opcode)
     event_name = 'opcode' if opcode else 'line'
+    trace_extra = tuple(trace_extra or ())
+    relcache = {}
+
+    def rel(code):
+        r = relcache.get(code)
+        if r is None:
+            fn = code.co_filename
+            r = relcache[code] = fn[len(LIB):] if fn.startswith(LIB) else fn
+        return r
 
     def pick_next():
+        """with mu held"""
         while st['seg'] < len(plan):
             t, k = plan[st['seg']]
             st['seg'] += 1
-            if not finished[t] and k > 0:
+            if finished[t] or t in blocked:
+                continue
+            if isinstance(k, (tuple, list)):
+                st['left'] = INF
+                st['target'] = (k[1], k[2])
+                return t
+            if k > 0:
                 st['left'] = k
+                st['target'] = None
                 return t
         for t in range(n):
-            if not finished[t]:
+            if not finished[t] and t not in blocked:
                 st['left'] = INF
+                st['target'] = None
                 return t
         return None
 
     def switch_from(me):
-        nxt = pick_next()
-        if nxt == me:
-            return
-        if nxt is None:
-            main_sem.release()
-            return
-        st['switches'] += 1
-        sems[nxt].release()
-        if not finished[me]:
+        """called by the holder of the baton"""
+        with mu:
+            lost = st['cur'] != me          # the watcher took the baton away in the meantime
+            if not lost:
+                nxt = pick_next()
+                if nxt == me:
+                    return
+                st['cur'] = nxt
+                if nxt is not None:
+                    st['switches'] += 1
+                    sems[nxt].release()
+                elif all(finished):
+                    done.set()
+        if lost:
+            if not finished[me]:
+                wake(me)
+            else:
+                with mu:
+                    blocked.discard(me)
+                    if st['cur'] is None and all(finished):
+                        done.set()
+        elif not finished[me]:
             sems[me].acquire()
+
+    def wake(i):
+        """thread i had been set aside as blocked and runs again: queue up for the baton"""
+        with mu:
+            blocked.discard(i)
+            if st['cur'] is None:
+                st['cur'] = i
+                st['left'] = INF
+                st['target'] = None
+                return
+        sems[i].acquire()
 
     def tracer_for(i):
         def local(frame, event, arg):
             if event == event_name:
+                if i in blocked:
+                    wake(i)
                 counts[i] += 1
+                progress[i] += 1
                 if record:
-                    fn = frame.f_code.co_filename
-                    logs[i].append((fn[len(LIB):] if fn.startswith(LIB) else fn, frame.f_lineno, frame.f_code.co_name))
+                    logs[i].append((rel(frame.f_code), frame.f_lineno, frame.f_code.co_name))
                 st['left'] -= 1
                 if st['left'] <= 0:
                     switch_from(i)
+                elif touch is not None:
+                    tabs = touch.get((rel(frame.f_code), frame.f_lineno))
+                    if tabs:
+                        tc = tcount[i]
+                        for x in tabs:
+                            tc[x] = tc.get(x, 0) + 1
+                        tg = st['target']
+                        if tg is not None and tg[0] in tabs and tc[tg[0]] >= tg[1]:
+                            switch_from(i)
             return local
 
         def glob(frame, event, arg):
             fn = frame.f_code.co_filename
-            if fn.startswith(LIB) or fn == '<string>':
+            if only_files is not None:
+                if fn.startswith(only_files):
+                    frame.f_trace_opcodes = True
+                    return local
+                return None
+            if fn.startswith(LIB) or fn == '<string>' or (trace_extra and fn.startswith(trace_extra)):
                 if opcode:
                     frame.f_trace_opcodes = True
                 return local
@@ -89,16 +163,69 @@ def run_schedule(bodies, plan, opcode=False, record=False, timeout=20.0):
             results[i] = ('err', e)
         finally:
             sys.settrace(None)
-            finished[i] = True
-            switch_from(i)
+            with mu:
+                finished[i] = True
+                was_blocked = i in blocked
+                blocked.discard(i)
+                holder = st['cur'] == i
+            if holder:
+                switch_from(i)
+            elif was_blocked:
+                with mu:
+                    if st['cur'] is None and all(finished):
+                        done.set()
 
+    if opcode:
+        # CPython 3.12 turns instruction events on only in a sys.settrace() call made AFTER some frame has asked for them
+        # (interp->f_opcode_trace_set): ask once here, or the thread that runs first would see no opcode event at all
+        def _prime(frame, event, arg):
+            frame.f_trace_opcodes = True
+            return None
+        sys.settrace(_prime)
+        (lambda: None)()
+        sys.settrace(None)
     threads = [threading.Thread(target=worker, args=(i,), daemon=True) for i in range(n)]
     for t in threads:
         t.start()
-    first = pick_next()
+    with mu:
+        first = pick_next()
+        st['cur'] = first
     sems[first].release()
-    ok = main_sem.acquire(timeout=timeout)
-    return {'results': results, 'counts': counts, 'log': logs if record else None, 'stuck': not ok, 'switches': st['switches']}
+    # ---- the main thread watches for a baton holder that stopped producing events (blocked on a lock)
+    import time
+    t_end = time.time() + timeout
+    last = (None, -1)
+    since = time.time()
+    ok = False
+    while True:
+        if done.wait(0.02):
+            ok = True
+            break
+        now = time.time()
+        if now > t_end:
+            break
+        with mu:
+            c = st['cur']
+            if c is None:
+                continue
+            sig = (c, progress[c])
+            if sig != last:
+                last, since = sig, now
+                continue
+            if now - since < block_after or finished[c]:
+                continue
+            if all(finished[t] or t in blocked or t == c for t in range(n)):
+                continue                    # nobody else could run: keep waiting (a long C call, or a real deadlock -> timeout)
+            blocked.add(c)
+            st['blocked_seen'] += 1
+            nxt = pick_next()
+            st['cur'] = nxt
+            last, since = (None, -1), now
+            if nxt is not None:
+                st['switches'] += 1
+                sems[nxt].release()
+    return {'results': results, 'counts': counts, 'log': logs if record else None, 'stuck': not ok, 'switches': st['switches'],
+            'blocked': st['blocked_seen']}
 
 
 # ---------------------------------------------------------------------------------------------------------------
@@ -142,7 +269,14 @@ def run_case_in_child(scn, plan, opcode=False, record=False):
         exec(compile(stmt, '<pre>', 'exec', dont_inherit=True), ns)
     codes = [compile(expr, f'<thread{i}>', 'eval', dont_inherit=True) for i, expr in enumerate(scn['threads'])]
     bodies = [(lambda c=c: eval(c, ns)) for c in codes]
-    out = run_schedule(bodies, plan, opcode=opcode, record=record)
+    trace_extra = ()
+    if scn.get('fresh_modules'):
+        unimport(scn['fresh_modules'])
+        trace_extra = module_prefixes(scn['fresh_modules'])
+    if opcode and scn.get('opcode_files'):
+        opcode = tuple(LIB + f for f in scn['opcode_files'])
+    touch = table_touch_lines() if any(isinstance(k, (tuple, list)) for _t, k in plan) else None
+    out = run_schedule(bodies, plan, opcode=opcode, record=record, trace_extra=trace_extra, touch=touch)
     post = []
     for expr in scn.get('post', []):
         try:
@@ -150,7 +284,137 @@ def run_case_in_child(scn, plan, opcode=False, record=False):
         except BaseException as e:      # noqa
             post.append(canon_outcome(('err', e)))
     return {'outcomes': [canon_outcome(r) for r in out['results']], 'post': post, 'counts': out['counts'], 'log': out['log'],
-            'stuck': out['stuck'], 'switches': out['switches']}
+            'stuck': out['stuck'], 'switches': out['switches'], 'blocked': out.get('blocked', 0)}
+
+
+# ---------------------------------------------------------------------------------------------------------------
+_TOUCH = {}
+
+
+def table_touch_lines(files=None):
+    """{(file relative to the package, line): {name: writes?}}: the lines of the library that touch one of the module-level tables of
+    class_helper.py — a subscript of the table, an `in` / `not in` test against it, a method call on it (.get / .pop /
+    .add / .setdefault / ...), an iteration over it.  Read off the source with `ast`, so it follows the tree under test."""
+    import ast
+    root = C.REPO / 'dataclass_wizard'
+    key = str(root)
+    if key in _TOUCH:
+        return _TOUCH[key]
+    tables, autoviv = set(), set()
+    tree = ast.parse((root / 'class_helper.py').read_text())
+    for node in tree.body:
+        tg, val = None, None
+        if isinstance(node, ast.Assign) and len(node.targets) == 1 and isinstance(node.targets[0], ast.Name):
+            tg, val = node.targets[0].id, node.value
+        elif isinstance(node, ast.AnnAssign) and isinstance(node.target, ast.Name) and node.value is not None:
+            tg, val = node.target.id, node.value
+        if tg is None:
+            continue
+        if isinstance(val, (ast.Dict, ast.Set)) or (
+                isinstance(val, ast.Call) and isinstance(val.func, (ast.Name, ast.Attribute))
+                and (val.func.id if isinstance(val.func, ast.Name) else val.func.attr)
+                in ('dict', 'set', 'defaultdict', 'OrderedDict', 'WeakKeyDictionary', 'WeakSet', 'DictWithLowerStore')):
+            tables.add(tg)
+            if isinstance(val, ast.Call) and (val.func.id if isinstance(val.func, ast.Name) else val.func.attr) == 'defaultdict':
+                autoviv.add(tg)
+    out = {}
+
+    def is_tab(n):
+        return isinstance(n, ast.Name) and n.id in tables
+
+    def scan(scope, relf, alias):
+        """touches inside `scope` (a module or a function body); `alias`: local name -> tables it may stand for"""
+        def tabs_of(n):
+            if isinstance(n, ast.Name):
+                if n.id in tables:
+                    return {n.id}
+                return alias.get(n.id, ())
+            return ()
+        for node in ast.walk(scope):
+            names, write = (), False
+            if isinstance(node, ast.Subscript):
+                names = tabs_of(node.value)
+                # reading a missing key of a defaultdict stores it
+                write = isinstance(node.ctx, (ast.Store, ast.Del)) or any(x in autoviv for x in names)
+            elif isinstance(node, ast.Compare) and any(isinstance(o, (ast.In, ast.NotIn)) for o in node.ops):
+                names = set().union(*[tabs_of(c) for c in node.comparators])
+            elif isinstance(node, ast.Call) and isinstance(node.func, ast.Attribute):
+                names = tabs_of(node.func.value)
+                write = node.func.attr in ('pop', 'popitem', 'add', 'setdefault', 'update', 'clear', 'discard', 'remove', '__setitem__')
+            elif isinstance(node, (ast.For, ast.comprehension)):
+                names = tabs_of(node.iter)
+            if names:
+                ln = node.iter.lineno if isinstance(node, ast.comprehension) else node.lineno
+                d = out.setdefault((relf, ln), {})
+                for x in names:
+                    d[x] = d.get(x, False) or write
+
+    for path in sorted(root.rglob('*.py')):
+        try:
+            t = ast.parse(path.read_text())
+        except (SyntaxError, UnicodeDecodeError):
+            continue
+        relf = str(path.relative_to(root))
+        scan(t, relf, {})
+        # a function that binds a table to a local name (`cls_to_loader = CLASS_TO_LOADER`) touches it through that name
+        for fn in ast.walk(t):
+            if isinstance(fn, (ast.FunctionDef, ast.AsyncFunctionDef)):
+                alias = {}
+                for node in ast.walk(fn):
+                    if isinstance(node, ast.Assign) and is_tab(node.value):
+                        for tg in node.targets:
+                            if isinstance(tg, ast.Name):
+                                alias.setdefault(tg.id, set()).add(node.value.id)
+                if alias:
+                    scan(fn, relf, alias)
+    _TOUCH[key] = out
+    return out
+
+
+def module_prefixes(names):
+    """file-name prefixes of the (not yet imported) top-level modules / packages `names`"""
+    import importlib.util
+    out = []
+    for m in names:
+        try:
+            spec = importlib.util.find_spec(m)
+        except (ImportError, ValueError):
+            spec = None
+        if spec is None:
+            continue
+        if spec.submodule_search_locations:
+            out += [str(p) + os.sep for p in spec.submodule_search_locations]
+        elif spec.origin:
+            out.append(spec.origin)
+    return tuple(out)
+
+
+def unimport(names):
+    """put the process back into the state in which the optional modules `names` have not been imported: drop them (and
+    their submodules) from sys.modules and give every `LazyLoader` of the library that stands for one of them its pristine
+    attribute dictionary back (the loader copies the module's namespace into its own on first use)."""
+    from dataclass_wizard.utils.lazy_loader import LazyLoader
+    names = set(names)
+    loaders = []
+    for mname, mod in list(sys.modules.items()):
+        if mod is None or not (mname == 'dataclass_wizard' or mname.startswith('dataclass_wizard.')):
+            continue
+        for attr, val in list(vars(mod).items()):
+            if isinstance(val, LazyLoader) and val.__dict__.get('__name__') in names and val not in loaders:
+                loaders.append(val)
+    for ll in loaders:
+        d = ll.__dict__
+        fresh = LazyLoader(d['_parent_module_globals'], d['__name__'], d.get('_extra'), d.get('_local_name'), d.get('_warning'))
+        # `_local_name` defaults to the name; keep the original one so that the parent's global is found again
+        fresh.__dict__['_local_name'] = d['_local_name']
+        pg, local = d['_parent_module_globals'], d['_local_name']
+        d.clear()
+        d.update(fresh.__dict__)
+        if local in pg and not isinstance(pg[local], LazyLoader):
+            pg[local] = ll
+    for mname in list(sys.modules):
+        if mname in names or mname.split('.')[0] in names:
+            del sys.modules[mname]
 
 
 def _child(fn, item, w):
